@@ -83,6 +83,15 @@ def cert(rng, s, pattern):
         D = [-rng.randint(1, 3) for _ in range(s)]
     elif pattern == "zero":
         D = [0] * s
+    elif pattern == "semi":          # singular, not zero: positive (or negative) semi-definite
+        sg = rng.choice([-1, 1])
+        D = [sg * rng.randint(1, 3) for _ in range(s)]
+        D[rng.randrange(s)] = 0
+        if not any(D):
+            D[0] = sg
+    elif pattern == "semi-mixed":    # singular with eigenvalues of both signs
+        D = [2, 0, -1] + [rng.choice([-1, 0, 1]) for _ in range(s - 3)]
+        rng.shuffle(D)
     else:
         D = [rng.choice([-1, 1]) * rng.randint(1, 3) for _ in range(s)]
         if s > 1:
@@ -220,7 +229,8 @@ def run(rep, tier, rng):
         A = algs.alg_obj(al)
         for s in range(1, (5 if quick else 8)):
             d = s * s
-            for pattern in ["pos", "neg", "mixed", "zero"] * (2 if quick else 4) + ["nonsym"] * 2 + ["upper", "lower", "upper-diag"]:
+            for pattern in ["pos", "neg", "mixed", "zero"] * (2 if quick else 4) + ["nonsym"] * 2 + ["upper", "lower", "upper-diag"] + \
+                    ["semi", "semi", "semi-mixed", "pos-rounded", "neg-rounded"]:
                 if pattern in ("nonsym", "upper", "lower", "upper-diag"):
                     if s == 1:
                         continue
@@ -236,11 +246,21 @@ def run(rep, tier, rng):
                     if (V == V.T).all():
                         V[0, 1] += 1
                 else:
-                    if pattern == "mixed" and s == 1:
+                    if pattern in ("mixed", "semi") and s == 1:
                         continue
-                    L, D, V = cert(rng, s, pattern)
+                    if pattern == "semi-mixed" and s < 3:
+                        continue
+                    if pattern.endswith("-rounded") and s == 1:
+                        continue
+                    L, D, V = cert(rng, s, pattern.split("-rounded")[0])
                 v = [int(x) for x in V.flatten()]
                 vf = algs.fl(v)
+                if pattern.endswith("-rounded"):
+                    # large magnitude, symmetric only up to rounding (a few ulps): still the definite matrix it is to 1e-12
+                    D = [x * 10 ** 9 for x in D]
+                    v = [x * 10 ** 9 for x in v]
+                    noise = np.triu(np.array([[rng.choice([-2.0, -1.0, 1.0, 2.0]) for _ in range(s)] for _ in range(s)]), 1)
+                    vf = (np.array(v, dtype=float).reshape(s, s) * (1.0 + 1e-13 * noise)).flatten()
                 o = c.observe(lambda: preds(A.sign(vf)))
                 add(f"check_sq_sign {c.zlist(v)} {c.zmat(L)} {c.zlist(D)} {obs_t(o, enc_preds)}",
                     {"op": "sq-sign", "alg": al, "v": v, "pattern": pattern, "L": L, "D": D, "obs": c.obs_json(o),
